@@ -257,12 +257,12 @@ def m_unique(it, x, series_name=None):
 @model(methods.value_counts_combine)
 def m_vc_combine(it, x, sort=True, ascending=False, **groupby_kwargs):
     # x: concatenated per-partition value_counts (index = value, values = counts) -> groupby(level=0).sum()
-    return _vc_sum(x)
+    return _vc_sum(x, groupby_kwargs.get("dropna", True))
 
 
 @model(methods.value_counts_aggregate)
 def m_vc_aggregate(it, x, total_length=None, sort=True, ascending=False, normalize=False, **groupby_kwargs):
-    out = _vc_sum(x)
+    out = _vc_sum(x, groupby_kwargs.get("dropna", True))
     if normalize:
         # `out /= total_length if total_length is not None else out.sum()` of the real function
         from .core import lit_cell, cell_binop, count as count_
@@ -277,11 +277,16 @@ def m_vc_aggregate(it, x, total_length=None, sort=True, ascending=False, normali
     return out
 
 
-def _vc_sum(x):
+def _vc_sum(x, dropna=True):
+    """x.groupby(level=0, dropna=dropna).sum(): with dropna (pandas' default) the rows under the missing label are discarded"""
     from .groupby import group_reduce
+    from .core import NAN_LABEL
 
     keys = [[Cell(I(v), F, "i") for v in x.index_.vals]]
-    first, aggs = group_reduce(keys, x.valid, x.order, [("sum", x.cells())])
+    valid = list(x.valid)
+    if dropna and getattr(x.index_, "nan", False):
+        valid = [And(v, Not(I(l) == NAN_LABEL)) for v, l in zip(valid, x.index_.vals)]
+    first, aggs = group_reduce(keys, valid, x.order, [("sum", x.cells())])
     return SymSeries(x.name, Col.from_cells(aggs[0], "i"), first, x.index_, [("vc", p) for p in x.prov], None)
 
 
